@@ -108,6 +108,7 @@ class CheckMeshgrid(Contract):
 
 @register
 class MeshgridTo1d(Contract):
+    functional = True
     target = UT + ":meshgrid_to_1d"
     stubs = {"check_coordinates": BU + ":check_coordinates", "check_meshgrid": UT + ":check_meshgrid"}
     cover_raise = True
@@ -140,6 +141,7 @@ class MeshgridTo1d(Contract):
 
 @register
 class MeshgridFrom1d(Contract):
+    functional = True
     target = UT + ":meshgrid_from_1d"
     stubs = {"get_ndim_horizontal_coords": UT + ":get_ndim_horizontal_coords", "check_coordinates": BU + ":check_coordinates"}
     cover_raise = True
@@ -242,6 +244,7 @@ def _grid_inputs(B, form, nvars, nextra, names=None):
 
 @register
 class MakeXarrayGrid(Contract):
+    functional = True
     target = UT + ":make_xarray_grid"
     stubs = {
         "get_ndim_horizontal_coords": UT + ":get_ndim_horizontal_coords",
@@ -378,6 +381,7 @@ def _sym_dataset(B, nvars, nextra, dims=("northing", "easting"), order="ne"):
 
 @register
 class GridToTable(Contract):
+    functional = True
     target = UT + ":grid_to_table"
 
     def configs(self, tier):
